@@ -26,8 +26,9 @@
 
    Ghost (never read by control flow, not in events): npos / lo / hi (global position
    order of inserted nodes), mlog (mutators in the order they take effect = write-mutex order),
-   lst (the abstract list: node ids, front first; always = fold apply_m mlog []), zlog (the log
-   records pushed on m_zombie_head and not yet deallocated, newest first), the counters
+   lst (the abstract list: node ids, front first; always = fold apply_m mlog []), zlog (every log
+   record ever pushed on m_zombie_head, newest first; never shrinks - whether a record is still
+   on the log is its ledger state), the counters
    nct / ndt / nfr of every cell.  A push takes effect at the store that makes the node reachable
    (m_head for push_front and for the first element, oldTail->next for push_back), an erase at
    the store that unlinks the node from the forward chain. *)
@@ -447,8 +448,7 @@ Definition tstep (t c : nat) (g : glob) (l : loc) : option (glob * loc * list ev
     Some (g1, goto (U_zd n nx), ptr_ld (cbase n) nx mo_default :: fe)
   | U_zd n nx => let '(g1, es) := do_destroy g n in Some (g1, goto (U_zf n nx), es)
   | U_zf n nx =>
-    let '(g0, es) := do_dealloc g n in
-    let g1 := with_zlog g0 (remove_nat n (zlog g0)) in
+    let '(g1, es) := do_dealloc g n in
     Some (g1, goto (match nx with Some m => reclaim_at g1 m | None => U_stn end), es)
   | U_stn =>
     let z := own_rec l in
